@@ -7,6 +7,7 @@ import (
 	"fmt"
 	"net"
 	"net/netip"
+	"os"
 	"strings"
 	"syscall"
 	"testing"
@@ -70,6 +71,26 @@ func (r *rawUDP) close() { _ = syscall.Close(r.fd) }
 
 func (r *rawUDP) sendTo(b []byte, ip [4]byte, port int) error {
 	return syscall.Sendto(r.fd, b, 0, &syscall.SockaddrInet4{Addr: ip, Port: port})
+}
+
+// socketsOnPort counts the UDP sockets of this host bound to the given local port (any address), from /proc/net/udp.
+// UDPPeer sets SO_REUSEADDR and SO_REUSEPORT, and for such sockets the kernel's ephemeral port selection may hand out
+// a port that another process's UDPPeer already uses: datagrams are then shared between strangers. The harness cannot
+// prevent that, but it can see it and refuse to judge the case.
+func socketsOnPort(port int) int {
+	b, err := os.ReadFile("/proc/net/udp")
+	if err != nil {
+		return 1
+	}
+	want := fmt.Sprintf(":%04X", port)
+	n := 0
+	for _, line := range strings.Split(string(b), "\n")[1:] {
+		f := strings.Fields(line)
+		if len(f) > 2 && strings.HasSuffix(f[1], want) {
+			n++
+		}
+	}
+	return n
 }
 
 func payload(tag, n int) []byte {
@@ -145,7 +166,7 @@ func (r mpReader) name() string { return "UDPPeer" }
 
 func TestC12_DatagramBoundaries(t *testing.T) {
 	rec := evid.For("C12")
-	rec.SetRule("rapid: (A) PacketConn and multicast.UDPPeer on 127.0.0.1: bursts of 1..20 datagrams of 1..1372 bytes (and up to 60000) from 1..3 raw senders, reads with buffers smaller/equal/larger than the datagram, issued before (deferred) or after (inline) arrival; writes to raw receivers; oracle: every datagram completes exactly one read with n=min(len,buf), identical bytes, the sender's ip:port (getsockname of the raw sender), per-sender order; every write is received exactly once with the caller's bytes; (B) UDPPeer bind forms {'', ':0', ':p', ifaddr:p, 127.0.0.1:p, 224.0.x.y:p}: LocalAddr()==getsockname; (C) membership histories on eth0: Join/JoinOn/JoinSource/Leave/LeaveSource/BlockSource/UnblockSource/SetLoop/SetTTL/SetOutboundIPv4/SetAsyncReadBuffer interleaved with multicast datagrams to joined and non-joined groups from a raw sender (source = interface address) while harness witness sockets keep every group joined on the host; a membership model (any-source with blocked set / include set) predicts delivered or not; non-delivery is decided by a unicast fence datagram that must be the next one read; getters TTL/Loop/Outbound/LocalAddr compared with getsockopt/getsockname after every call; non-trivial = >=2 membership changes with traffic after each, or a truncating read, or a buffer swap; distinct = hash of the history")
+	rec.SetRule("rapid: (A) PacketConn and multicast.UDPPeer on 127.0.0.1: bursts of 1..80 datagrams (consumed one read at a time from top level, or by a chain of reads re-armed from each completion with a fresh buffer, which crosses the dispatch limit) of 1..1372 bytes (and up to 60000) from 1..3 raw senders, reads with buffers smaller/equal/larger than the datagram, issued before (deferred) or after (inline) arrival; writes to raw receivers; oracle: every datagram completes exactly one read with n=min(len,buf), identical bytes, the sender's ip:port (getsockname of the raw sender), per-sender order; every write is received exactly once with the caller's bytes; (B) UDPPeer bind forms {'', ':0', ':p', ifaddr:p, 127.0.0.1:p, 224.0.x.y:p}: LocalAddr()==getsockname; (C) membership histories on eth0: Join/JoinOn/JoinSource/Leave/LeaveSource/BlockSource/UnblockSource/SetLoop/SetTTL/SetOutboundIPv4/SetAsyncReadBuffer interleaved with multicast datagrams to joined and non-joined groups from a raw sender (source = interface address) while harness witness sockets keep every group joined on the host; a membership model (any-source with blocked set / include set) predicts delivered or not; non-delivery is decided by a unicast fence datagram that must be the next one read; getters TTL/Loop/Outbound/LocalAddr compared with getsockopt/getsockname after every call; non-trivial = >=2 membership changes with traffic after each, or a truncating read, or a buffer swap; distinct = hash of the history")
 	rec.Assume("loopback delivery keeps per-sender order; all local multicast senders have the interface address as source, a second source is an address that never sends (10.9.9.9); TTL 1, nothing leaves the sandbox")
 	vt.Check(t, 300, func(rt *rapid.T) {
 		ioc, err := sonic.NewIO()
@@ -196,7 +217,9 @@ func TestC12_DatagramBoundaries(t *testing.T) {
 			for _, q := range queues {
 				total += len(q)
 			}
-			issueRead := func() {
+			chain := rapid.Bool().Draw(rt, "chain")
+			var issueRead func()
+			issueRead = func() {
 				buf := make([]byte, bufLen)
 				reading = true
 				inline := true
@@ -235,13 +258,24 @@ func TestC12_DatagramBoundaries(t *testing.T) {
 						problem = fmt.Sprintf("read into a %d-byte buffer returned n=%d %x.., the next datagram of %s has %d bytes %x..", len(buf), n, head(buf[:max(n, 0)]), from, len(want), head(want))
 					}
 					trace = append(trace, fmt.Sprintf("read(buf=%d)=%d", len(buf), n))
+					if chain && problem == "" {
+						// consume the burst the way applications do: re-arm from the completion, with a fresh buffer each
+						// time; after 32 nested completions the next read is handed to the poller
+						left := 0
+						for _, q := range queues {
+							left += len(q)
+						}
+						if left > 0 {
+							issueRead()
+						}
+					}
 				})
 				inline = false
 			}
 			if armFirst && total == 0 && !reading {
 				issueRead()
 			}
-			burst := rapid.IntRange(1, 20).Draw(rt, "burst")
+			burst := rapid.OneOf(rapid.IntRange(1, 20), rapid.IntRange(30, 80)).Draw(rt, "burst")
 			for i := 0; i < burst; i++ {
 				s := senders[rapid.IntRange(0, ns-1).Draw(rt, "s")]
 				n := rapid.OneOf(rapid.IntRange(1, 1372), rapid.SampledFrom([]int{1, 2, 1371, 1372, 9000, 60000})).Draw(rt, "len")
@@ -310,6 +344,9 @@ func TestC12_DatagramBoundaries(t *testing.T) {
 				}
 				trace = append(trace, fmt.Sprintf("write(%d)", len(p)))
 			}
+		}
+		if n := socketsOnPort(port); n != 1 && (problem != "" || sysx.WaitReadable(rd.rawFd(), 0)) {
+			rt.Fatalf("INFRA: %d sockets of this host are bound to the test port %d (another process received the same ephemeral port through SO_REUSEPORT): the case cannot be judged (%s)", n, port, problem)
 		}
 		if problem != "" {
 			rt.Fatalf("%s: %s; trace=%v", rd.name(), problem, trace)
@@ -811,6 +848,9 @@ func TestC12_MembershipHistories(t *testing.T) {
 					s = append(s, fmt.Sprintf("%s/%d/%x", x.from, x.n, head(x.data)))
 				}
 				return strings.Join(s, " ")
+			}
+			if n := socketsOnPort(port); n != 1+len(wits) && (len(inbox) != len(want)) {
+				rt.Fatalf("INFRA: %d sockets of this host are bound to the test port %d, expected %d (another process received the same ephemeral port): the case cannot be judged", n, port, 1+len(wits))
 			}
 			if len(inbox) != len(want) {
 				rt.Fatalf("after %s(%s): the peer read %d datagrams [%s], the membership model (group states %s) expects %d [%s] (fence last); trace=%v", op, gs(g), len(inbox), desc(inbox), modelString(model, groups), len(want), desc(want), trace)
